@@ -520,12 +520,17 @@ class UnitGen:
             for n in nodes:
                 if n["kind"] == "path_call" and n["method"] == "map" and n["segments"] >= 2:
                     ctor = src.text(*n["path"])
-                    if not re.fullmatch(r"[A-Za-z_]\w*(::[A-Za-z_]\w*)*", ctor) or not ctor.split("::")[-1][0].isupper():
-                        raise Undecided(f"fn {qual}: R19 refused ({ctor!r} is not a constructor path)")
                     s0, e0 = n["range"]
                     rs, re_ = n["receiver"]
+                    if ctor == "Into::into":
+                        # `E.map(Into::into)`: the function value is the trait method; applied to v it is `v.into()`
+                        app = f"vx_v{k19}.into()"
+                    elif re.fullmatch(r"[A-Za-z_]\w*(::[A-Za-z_]\w*)*", ctor) and ctor.split("::")[-1][0].isupper():
+                        app = f"{ctor}(vx_v{k19})"
+                    else:
+                        raise Undecided(f"fn {qual}: R19 refused ({ctor!r} is not a constructor path)")
                     edits.append((s0, rs, "(match ", "R19"))
-                    edits.append((re_, e0, f" {{ Some(vx_v{k19}) => Some({ctor}(vx_v{k19})), None => None }})", "R19"))
+                    edits.append((re_, e0, f" {{ Some(vx_v{k19}) => Some({app}), None => None }})", "R19"))
                     k19 += 1
                     self.rewrites.append({"rule": "R19", "what": f"`E.map({ctor})` -> match E {{ Some(v) => Some({ctor}(v)), None => None }} in {qual}",
                                           "file": src.rel, "line": src.line_of(s0)})
